@@ -116,6 +116,10 @@ pub fn generate(prop: &str, out: &mut Out, thorough: bool, seed: u64) -> bool {
                 emit(out, &id, e, (x + d).saturating_sub(2));
             }
         }
+        // boundary values of the source's own comparison constants
+        for &c in source_constants().iter() {
+            emit(out, &id, e, c);
+        }
         // what the decoder can produce is what the encoder is most likely to map
         for _ in 0..1500 {
             let n = 1 + rng.below(4);
